@@ -11,7 +11,7 @@ SPEC = {
     'claim': 'thorough: for every one of the 2^32 words goom\'s arm64asm.Decode returns an instruction or an error without panicking, '
              'Inst.String() of every decoded instruction does not panic, and for every word outside the frozen SYS class '
              '(w & 0xFFF80000 == 0xD5080000) goom and the reference agree on decodability, opcode mnemonic and the displacement of every '
-             'PC-relative argument. quick: the same on one residue class mod 257 plus the PC-relative encoding classes',
+             'PC-relative argument. quick: the same on one residue class mod 257 plus the PC-relative encoding classes, the complete system-instruction space 0xD5000000-0xD53FFFFF (2^22 words) and, for every value of the opcode bits 31..21, every low-21-bit value made of at most 4 runs of equal bits (fields at all-zeros/all-ones in all combinations)',
     'note': 'quick is a declared non-exhaustive selection (exhaustive:false); thorough is complete (exhaustive:true unless the safety-net budget fires). '
             'Inside the SYS class (2^19 words) only totality is judged; register/immediate operands other than PC-relative displacements are not compared '
             '(the statement names decodability, opcode and PC-relative displacement only)',
@@ -21,7 +21,7 @@ SPEC = {
             'quick: all w with w mod 257 == VERIF_SEED mod 257 (16.7e6 words), plus B.cond (imm19 full x cond{EQ,NE,AL,NV} and o0=1), '
             'CBZ/CBNZ (imm19 full x (sf,Rt) in {(0,0),(1,1),(0,30),(1,31)}), LDR-literal family (imm19 full x all 8 (opc,V)), '
             'TBZ/TBNZ (imm14 full x (b5,b40,Rt) in 4 settings), B/BL (imm26) and ADR/ADRP (imm21, Rd in {0,31}) with the immediate strided by 2^7 '
-            'plus 0..64, -64..-1 and +-64 around the sign boundary; words already in the residue class are not run twice. '
+            'plus 0..64, -64..-1 and +-64 around the sign boundary; plus system-space = all w with w>>22 == 0x354; plus field-boundary-patterns = (bits 31..21 in 0..2047) x (21-bit values with <= 4 runs of equal bits, 2702 of them); words already covered by an earlier class are not run twice (membership predicates, so the distinct counts are exact). '
             'evaluations = words compared with the reference (outside the SYS class); unjudged = words inside the SYS class (totality only); '
             'states = distinct words run; transitions = calls of goom Decode + Inst.String; '
             'distinct_nontrivial = distinct words goom decoded successfully (each also printed).',
